@@ -105,9 +105,14 @@ ASSUME \A r \in {"ExpiryTooSoon", "ExpiryTooFar", "IncorrectCltvExpiry", "CltvDe
 \* the boolean form of the judgement (used by Apalache) is the set form, for every verdict
 Verdicts == {"ok", "FeeInsufficient", "AmountBelowMinimum", "HtlcExceedsMax", "InsufficientBalance",
              "ExpiryTooSoon", "ExpiryTooFar", "IncorrectCltvExpiry", "TemporaryChannelFailure", "TemporaryNodeFailure"}
-BoolFormIsSetForm == pc # "pick" => \A v \in Verdicts : /\ AgreeB(c, v) <=> Agree(c, v)
-                                                        /\ AgreeTransitB(c, v) <=> AgreeTransit(c, v)
+BoolFormIsSetForm == pc # "pick" =>
+  LET viol == Violated(c)
+      violT == ViolatedTransit(c) IN
+  \A v \in Verdicts : /\ AgreeB(c, v) <=> AgreesWith(viol, v)
+                      /\ AgreeTransitB(c, v) <=> AgreesWith(violT, v)
 
 MCNext == (pc = "pick" /\ (LatticePick(PickFwd) \/ LatticePick(PickTransit))) \/ Decide
 MCSpec == Init /\ [][MCNext]_vars
+\* the lattice alone (no decision stages): used for BoolFormIsSetForm, which is costly per state
+LatticeSpec == Init /\ [][pc = "pick" /\ LatticePick(PickFwd)]_vars
 =============================================================================
